@@ -231,24 +231,24 @@ var _ oauth2.JWTSessionContainer = (*SimSession)(nil)
 // Clients (registration records of the simulated deployment)
 
 type ClientSpec struct {
-	ID             string            `json:"id"`
-	Public         bool              `json:"public,omitempty"`
-	Secret         string            `json:"secret,omitempty"`
-	Rotated        []string          `json:"rotated,omitempty"`
-	RedirectURIs   []string          `json:"redirect_uris,omitempty"`
-	GrantTypes     []string          `json:"grant_types,omitempty"`
-	ResponseTypes  []string          `json:"response_types,omitempty"`
-	Scopes         []string          `json:"scopes,omitempty"`
-	Audience       []string          `json:"audience,omitempty"`
-	ResponseModes  []string          `json:"response_modes,omitempty"`
-	OIDC           bool              `json:"oidc,omitempty"`
-	AuthMethod     string            `json:"auth_method,omitempty"`
-	AuthAlg        string            `json:"auth_alg,omitempty"`
-	KeyName        string            `json:"key,omitempty"` // fixture key registered as JWKS
-	JWKSURI        string            `json:"jwks_uri,omitempty"`
-	RequestObjAlg  string            `json:"request_object_alg,omitempty"`
-	RequestURIs    []string          `json:"request_uris,omitempty"`
-	Lifespans      map[string]int64  `json:"lifespans,omitempty"` // "grant:tokentype" -> seconds
+	ID            string           `json:"id"`
+	Public        bool             `json:"public,omitempty"`
+	Secret        string           `json:"secret,omitempty"`
+	Rotated       []string         `json:"rotated,omitempty"`
+	RedirectURIs  []string         `json:"redirect_uris,omitempty"`
+	GrantTypes    []string         `json:"grant_types,omitempty"`
+	ResponseTypes []string         `json:"response_types,omitempty"`
+	Scopes        []string         `json:"scopes,omitempty"`
+	Audience      []string         `json:"audience,omitempty"`
+	ResponseModes []string         `json:"response_modes,omitempty"`
+	OIDC          bool             `json:"oidc,omitempty"`
+	AuthMethod    string           `json:"auth_method,omitempty"`
+	AuthAlg       string           `json:"auth_alg,omitempty"`
+	KeyName       string           `json:"key,omitempty"` // fixture key registered as JWKS
+	JWKSURI       string           `json:"jwks_uri,omitempty"`
+	RequestObjAlg string           `json:"request_object_alg,omitempty"`
+	RequestURIs   []string         `json:"request_uris,omitempty"`
+	Lifespans     map[string]int64 `json:"lifespans,omitempty"` // "grant:tokentype" -> seconds
 }
 
 type SimClient struct {
@@ -274,9 +274,9 @@ type SimOIDCClient struct {
 	TokenEndpointAuthSigningAlgorithm string
 }
 
-func (c *SimOIDCClient) GetJSONWebKeysURI() string              { return c.JSONWebKeysURI }
-func (c *SimOIDCClient) GetJSONWebKeys() *jose.JSONWebKeySet    { return c.JSONWebKeys }
-func (c *SimOIDCClient) GetRequestURIs() []string               { return c.RequestURIs }
+func (c *SimOIDCClient) GetJSONWebKeysURI() string           { return c.JSONWebKeysURI }
+func (c *SimOIDCClient) GetJSONWebKeys() *jose.JSONWebKeySet { return c.JSONWebKeys }
+func (c *SimOIDCClient) GetRequestURIs() []string            { return c.RequestURIs }
 func (c *SimOIDCClient) GetRequestObjectSigningAlgorithm() string {
 	return c.RequestObjectSigningAlgorithm
 }
@@ -367,44 +367,44 @@ func BuildClient(cs ClientSpec) fosite.Client {
 // Knobs: the configuration of one simulated deployment.
 
 type Knobs struct {
-	JWTAccess     bool     `json:"jwt_access,omitempty"`
-	Store         string   `json:"store,omitempty"` // plain | tx | contract
-	ATLife        int64    `json:"at_life,omitempty"` // seconds; 0 = leave unset (documented default)
-	RTLife        int64    `json:"rt_life,omitempty"` // -1 unlimited
-	CodeLife      int64    `json:"code_life,omitempty"`
-	IDLife        int64    `json:"id_life,omitempty"`
-	DeviceLife    int64    `json:"device_life,omitempty"`
-	PARLife       int64    `json:"par_life,omitempty"`
-	RefreshScopes []string `json:"refresh_scopes"`           // nil => default ("offline","offline_access"); [] => none required
-	RefreshScopesSet bool  `json:"refresh_scopes_set,omitempty"`
-	ScopeStrategy string   `json:"scope_strategy,omitempty"` // "" default(wildcard) | exact | hierarchic | wildcard
-	AudStrategy   string   `json:"aud_strategy,omitempty"`   // "" default | exact
-	EnforcePKCE   bool     `json:"enforce_pkce,omitempty"`
-	EnforcePKCEPublic bool `json:"enforce_pkce_public,omitempty"`
-	PKCEPlain     bool     `json:"pkce_plain,omitempty"`
-	PAREnforced   bool     `json:"par_enforced,omitempty"`
-	PARPrefix     string   `json:"par_prefix,omitempty"`
-	Entropy       int      `json:"entropy,omitempty"`
-	LegacyErrors  bool     `json:"legacy_errors,omitempty"`
-	Debug         bool     `json:"debug,omitempty"`
-	MinParamEntropy int    `json:"min_param_entropy,omitempty"`
-	DisableRTValidation bool `json:"disable_rt_validation,omitempty"`
-	Secret        string   `json:"secret,omitempty"` // current global secret (>=32)
-	RotatedSecrets []string `json:"rotated_secrets,omitempty"`
-	HMACHash      string   `json:"hmac_hash,omitempty"` // "" | sha256 | sha512
-	IDKey         string   `json:"id_key,omitempty"` // fixture key signing id tokens / jwt access tokens
-	JWTBearerIDOptional  bool  `json:"jb_id_optional,omitempty"`
-	JWTBearerIATOptional bool  `json:"jb_iat_optional,omitempty"`
-	JWTBearerSkipClientAuth bool `json:"jb_skip_client_auth,omitempty"`
-	JWTBearerMaxDur int64  `json:"jb_max_dur,omitempty"`
-	OmitScopeParam bool    `json:"omit_scope_param,omitempty"`
-	AllowInsecureRedirect bool `json:"allow_insecure_redirect,omitempty"`
-	PollInterval  int64    `json:"poll_interval,omitempty"`
-	UserCodeLen   int      `json:"user_code_len,omitempty"`
-	Clients       []ClientSpec `json:"clients"`
-	Users         map[string]string `json:"users,omitempty"`
+	JWTAccess               bool              `json:"jwt_access,omitempty"`
+	Store                   string            `json:"store,omitempty"`   // plain | tx | contract
+	ATLife                  int64             `json:"at_life,omitempty"` // seconds; 0 = leave unset (documented default)
+	RTLife                  int64             `json:"rt_life,omitempty"` // -1 unlimited
+	CodeLife                int64             `json:"code_life,omitempty"`
+	IDLife                  int64             `json:"id_life,omitempty"`
+	DeviceLife              int64             `json:"device_life,omitempty"`
+	PARLife                 int64             `json:"par_life,omitempty"`
+	RefreshScopes           []string          `json:"refresh_scopes"` // nil => default ("offline","offline_access"); [] => none required
+	RefreshScopesSet        bool              `json:"refresh_scopes_set,omitempty"`
+	ScopeStrategy           string            `json:"scope_strategy,omitempty"` // "" default(wildcard) | exact | hierarchic | wildcard
+	AudStrategy             string            `json:"aud_strategy,omitempty"`   // "" default | exact
+	EnforcePKCE             bool              `json:"enforce_pkce,omitempty"`
+	EnforcePKCEPublic       bool              `json:"enforce_pkce_public,omitempty"`
+	PKCEPlain               bool              `json:"pkce_plain,omitempty"`
+	PAREnforced             bool              `json:"par_enforced,omitempty"`
+	PARPrefix               string            `json:"par_prefix,omitempty"`
+	Entropy                 int               `json:"entropy,omitempty"`
+	LegacyErrors            bool              `json:"legacy_errors,omitempty"`
+	Debug                   bool              `json:"debug,omitempty"`
+	MinParamEntropy         int               `json:"min_param_entropy,omitempty"`
+	DisableRTValidation     bool              `json:"disable_rt_validation,omitempty"`
+	Secret                  string            `json:"secret,omitempty"` // current global secret (>=32)
+	RotatedSecrets          []string          `json:"rotated_secrets,omitempty"`
+	HMACHash                string            `json:"hmac_hash,omitempty"` // "" | sha256 | sha512
+	IDKey                   string            `json:"id_key,omitempty"`    // fixture key signing id tokens / jwt access tokens
+	JWTBearerIDOptional     bool              `json:"jb_id_optional,omitempty"`
+	JWTBearerIATOptional    bool              `json:"jb_iat_optional,omitempty"`
+	JWTBearerSkipClientAuth bool              `json:"jb_skip_client_auth,omitempty"`
+	JWTBearerMaxDur         int64             `json:"jb_max_dur,omitempty"`
+	OmitScopeParam          bool              `json:"omit_scope_param,omitempty"`
+	AllowInsecureRedirect   bool              `json:"allow_insecure_redirect,omitempty"`
+	PollInterval            int64             `json:"poll_interval,omitempty"`
+	UserCodeLen             int               `json:"user_code_len,omitempty"`
+	Clients                 []ClientSpec      `json:"clients"`
+	Users                   map[string]string `json:"users,omitempty"`
 	// JWT bearer issuers: issuer -> subject -> key fixture name -> scopes
-	BearerKeys    []BearerKeySpec `json:"bearer_keys,omitempty"`
+	BearerKeys []BearerKeySpec `json:"bearer_keys,omitempty"`
 }
 
 type BearerKeySpec struct {
@@ -416,9 +416,9 @@ type BearerKeySpec struct {
 }
 
 const (
-	TokenURL     = "https://as.sim/token"
-	IssuerURL    = "https://as.sim"
-	VerifyURL    = "https://as.sim/device"
+	TokenURL      = "https://as.sim/token"
+	IssuerURL     = "https://as.sim"
+	VerifyURL     = "https://as.sim/device"
 	DefaultSecret = "sim-global-secret-0000000000000000000000"
 )
 
@@ -505,28 +505,28 @@ func (k *Knobs) BuildConfig(net *SimNet) *fosite.Config {
 		sec = DefaultSecret
 	}
 	cfg := &fosite.Config{
-		GlobalSecret:                   []byte(sec),
-		TokenURL:                       TokenURL,
-		IDTokenIssuer:                  IssuerURL,
-		AccessTokenIssuer:              IssuerURL,
-		DeviceVerificationURL:          VerifyURL,
-		EnforcePKCE:                    k.EnforcePKCE,
-		EnforcePKCEForPublicClients:    k.EnforcePKCEPublic,
-		EnablePKCEPlainChallengeMethod: k.PKCEPlain,
-		IsPushedAuthorizeEnforced:      k.PAREnforced,
-		PushedAuthorizeRequestURIPrefix: k.PARPrefix,
-		TokenEntropy:                   k.Entropy,
-		UseLegacyErrorFormat:           k.LegacyErrors,
-		SendDebugMessagesToClients:     k.Debug,
-		MinParameterEntropy:            k.MinParamEntropy,
-		DisableRefreshTokenValidation:  k.DisableRTValidation,
-		HMACHasher:                     hmacHasher(k.HMACHash),
-		GrantTypeJWTBearerIDOptional:   k.JWTBearerIDOptional,
+		GlobalSecret:                         []byte(sec),
+		TokenURL:                             TokenURL,
+		IDTokenIssuer:                        IssuerURL,
+		AccessTokenIssuer:                    IssuerURL,
+		DeviceVerificationURL:                VerifyURL,
+		EnforcePKCE:                          k.EnforcePKCE,
+		EnforcePKCEForPublicClients:          k.EnforcePKCEPublic,
+		EnablePKCEPlainChallengeMethod:       k.PKCEPlain,
+		IsPushedAuthorizeEnforced:            k.PAREnforced,
+		PushedAuthorizeRequestURIPrefix:      k.PARPrefix,
+		TokenEntropy:                         k.Entropy,
+		UseLegacyErrorFormat:                 k.LegacyErrors,
+		SendDebugMessagesToClients:           k.Debug,
+		MinParameterEntropy:                  k.MinParamEntropy,
+		DisableRefreshTokenValidation:        k.DisableRTValidation,
+		HMACHasher:                           hmacHasher(k.HMACHash),
+		GrantTypeJWTBearerIDOptional:         k.JWTBearerIDOptional,
 		GrantTypeJWTBearerIssuedDateOptional: k.JWTBearerIATOptional,
 		GrantTypeJWTBearerCanSkipClientAuth:  k.JWTBearerSkipClientAuth,
-		OmitRedirectScopeParam:         k.OmitScopeParam,
-		UserCodeLength:                 k.UserCodeLen,
-		DeviceAuthTokenPollingInterval: time.Duration(k.PollInterval) * time.Second,
+		OmitRedirectScopeParam:               k.OmitScopeParam,
+		UserCodeLength:                       k.UserCodeLen,
+		DeviceAuthTokenPollingInterval:       time.Duration(k.PollInterval) * time.Second,
 		// explicit so that the lazily-defaulting getters never write during a run
 		ClientSecretsHasher: nil,
 	}
